@@ -29,7 +29,7 @@ TIMEOUT = 900
 
 
 def cases(tier, seed):
-    forms = ["bare", "attr", "alias", "wrapped", "pkginit", "initroot", "chain"]
+    forms = ["bare", "attr", "alias", "wrapped", "pkginit", "initroot", "chain", "pinned"]
     for form in forms:
         edges = all_edges(3, form)
         graphs = [(kinds, mask) for kinds in itertools.product(["memento", "plain"], repeat=2)
@@ -77,7 +77,8 @@ def render_small(pkg, n, kinds, edges, form):
     for u in range(n):
         L = texts[mod_of(u)]
         if kinds[u] == "memento":
-            L.append("@m.memento_function")
+            # (form 'pinned': every memento function but the root declares its version explicitly)
+            L.append("@m.memento_function" + ("(version=\"p%d\")" % u if form == "pinned" and u > 0 else ""))
         elif form == "wrapped":
             L += ["def deco_n%d(fn):" % u, "    @functools.wraps(fn)", "    def wrapper(*args, **kw):",
                   "        return fn(*args, **kw)", "    return wrapper", "", "@deco_n%d" % u]
@@ -279,7 +280,7 @@ def random_child(arg):
 
 def run_random(case, out, fail):
     rng = core.rng_for(case["seed"], ID, case["idx"])
-    prog = progs.gen_program(rng, "vp14_%d_%d" % (case["seed"], case["idx"]), p_explicit=0.1, p_hidden=0.5,
+    prog = progs.gen_program(rng, "vp14_%d_%d" % (case["seed"], case["idx"]), p_explicit=0.25 if case["idx"] % 3 == 0 else 0.1, p_hidden=0.5,
                              p_init=0.2 if case["idx"] % 2 else 0.4, p_ext=0.2)
     with env.Scratch() as sc:
         try:
